@@ -92,7 +92,7 @@ impl<#[cfg(feature = "allocator_api")] A: Allocator> AsyncWrite for t_alloc!(Vec
 
     async fn write_vectored<T: IoVectoredBuf>(&mut self, buf: T) -> BufResult<usize, T> {
         let len = buf.iter_slice().map(|b| b.buf_len()).sum();
-        self.reserve(len - self.len());
+        self.reserve(len);
         for buf in buf.iter_slice() {
             self.extend_from_slice(buf);
         }
@@ -401,7 +401,7 @@ impl<#[cfg(feature = "allocator_api")] A: Allocator> AsyncWriteZerocopy for t_al
         buf: T,
     ) -> BufResult<usize, Self::VectoredBufferReadyFuture<T>> {
         let len = buf.iter_slice().map(|b| b.buf_len()).sum();
-        self.reserve(len - self.len());
+        self.reserve(len);
         for slice in buf.iter_slice() {
             self.extend_from_slice(slice);
         }
